@@ -159,13 +159,15 @@ def _jsonable(value):
     return value
 
 
-def _compare(prefix: str, before: dict, after: dict, context: dict) -> None:
-    """ raises the first differing clause (fixed order, one feature type / structure section at a time, so that
-        a violation names one kind of difference); `context` is copied into the detail """
+def _differences(prefix: str, before: dict, after: dict, context: dict) -> list:
+    """ every difference between two dumps as (clause, detail), in a fixed order and one feature type / structure
+        section at a time, so that each names one kind of difference; `context` is copied into the details """
+    found: list = []
+
     def fail(clause: str, extra: dict) -> None:
         detail = dict(context)
         detail.update(extra)
-        raise Violation(f"{prefix}_{clause}", detail)
+        found.append((f"{prefix}_{clause}", detail))
 
     if before["seq"] != after["seq"] or before["length"] != after["length"]:
         fail("sequence", {"before": before["length"], "after": after["length"]})
@@ -183,7 +185,6 @@ def _compare(prefix: str, before: dict, after: dict, context: dict) -> None:
             two = [row for row in after["features"] if row[0] == kind]
             if one != two:
                 fail("features", dict(_feature_difference(one, two), type=kind))
-        raise AssertionError("harness: feature tables differ but no type does")
     for section in SECTION_ORDER + sorted(set(before["structure"]) - set(SECTION_ORDER)):
         if before["structure"][section] != after["structure"][section]:
             fail("structure", {"section": section,
@@ -193,6 +194,18 @@ def _compare(prefix: str, before: dict, after: dict, context: dict) -> None:
         gained = _only(after["secmet_features"], before["secmet_features"])
         fail("secmet_features", {"classes_differing": sorted({row[1] for row in lost + gained}),
                                  "only_before": lost[:4], "only_after": gained[:4]})
+    return found
+
+
+def _raise_first(sub: str, spec: dict, found: list) -> None:
+    """ raises one of the collected differences: the first that none of this module's signatures describes,
+        else the first.  (Known deviations must not hide an unknown one further down the list.) """
+    if not found:
+        return
+    for clause, detail in found:
+        if not any(signature(sub, spec, clause, detail) for signature in SIGNATURES.values()):
+            raise Violation(clause, detail)
+    raise Violation(*found[0])
 
 
 def _start(spec: dict):
@@ -236,13 +249,14 @@ def check_genbank(spec: dict) -> dict:
     with code_under_test("gb_reload_total"):
         reloaded = rec.record_from_genbank_text(text, built.taxon)
         second = rec.canonical_dump(reloaded, strandless_as_forward=True)
-    _compare("gb", first, second, context)
+    found = _differences("gb", first, second, context)
     with code_under_test("gb_rewrite_total"):
         text_again = rec.genbank_text(reloaded)
-    if text_again != text:
+    if text_again != text and not found:      # a record that differs is written differently: nothing new
         one, two = text.splitlines(), text_again.splitlines()
         lines = [[a, b] for a, b in zip(one, two) if a != b][:6]
-        raise Violation("gb_fixed_point", dict(context, lines=lines, lengths=[len(one), len(two)]))
+        found.append(("gb_fixed_point", dict(context, lines=lines, lengths=[len(one), len(two)])))
+    _raise_first("genbank", spec, found)
     return _result(spec, classes)
 
 
@@ -265,17 +279,18 @@ def check_json(spec: dict) -> dict:
     with code_under_test("json_reload_total"):
         reloaded = record_from_json(std_json.loads(text), built.taxon)
         second = rec.canonical_dump(reloaded)
-    _compare("json", first, second, context)
-    with code_under_test("json_rewrite_total"):
-        text_again = _json_text(reloaded)
-    if text_again != text:
-        one, two = std_json.loads(text), std_json.loads(text_again)
-        raise Violation("json_fixed_point", dict(context, diff=rec.diff_dumps(one, two, limit=60)))
+    found = _differences("json", first, second, context)
     # record_from_json also accepts the text itself
     with code_under_test("json_reload_total"):
         from_text = rec.canonical_dump(record_from_json(text, built.taxon))
     if from_text != second:
-        raise Violation("json_text_vs_dict", dict(context, diff=rec.diff_dumps(second, from_text)))
+        found.append(("json_text_vs_dict", dict(context, diff=rec.diff_dumps(second, from_text))))
+    with code_under_test("json_rewrite_total"):
+        text_again = _json_text(reloaded)
+    if text_again != text and not found:
+        one, two = std_json.loads(text), std_json.loads(text_again)
+        found.append(("json_fixed_point", dict(context, diff=rec.diff_dumps(one, two, limit=60))))
+    _raise_first("json", spec, found)
     return _result(spec, classes)
 
 
@@ -295,6 +310,7 @@ def check_results(spec: dict) -> dict:
         handle = io.StringIO()
         results.write_to_file(handle)
         text = handle.getvalue()
+    _repeatable(first, rec.canonical_dump(record), context)
     with code_under_test("results_reload_total"):
         loaded = AntismashResults.from_file(io.StringIO(text))
     if len(loaded.records) != 1 or loaded.taxon != built.taxon or loaded.input_file != "input.gbk" \
@@ -303,25 +319,20 @@ def check_results(spec: dict) -> dict:
                                                  input_file=loaded.input_file, version=loaded.version))
     reloaded = loaded.records[0]
     second = rec.canonical_dump(reloaded)
-    _compare("results", first, second, context)
+    found = _differences("results", first, second, context)
     if reloaded.original_id != (original_id or None):
-        raise Violation("results_original_id", dict(context, before=original_id, after=reloaded.original_id))
+        found.append(("results_original_id", dict(context, before=original_id, after=reloaded.original_id)))
     if abs(reloaded.get_gc_content() - record.get_gc_content()) > 1e-12:
-        raise Violation("results_gc_content", dict(context, before=record.get_gc_content(),
-                                                   after=reloaded.get_gc_content()))
-    with code_under_test("results_rewrite_total"):
-        handle = io.StringIO()
-        AntismashResults("input.gbk", [reloaded], [{}], "7.1.0", taxon=built.taxon).write_to_file(handle)
-    if handle.getvalue() != text:
-        raise Violation("results_fixed_point", dict(context, diff=rec.diff_dumps(
-            std_json.loads(text), std_json.loads(handle.getvalue()), limit=60)))
+        found.append(("results_gc_content", dict(context, before=record.get_gc_content(),
+                                                 after=reloaded.get_gc_content())))
     # dump_records to a handle writes the same records section
     with code_under_test("results_write_total"):
         handle = io.StringIO()
         data = dump_records([{}], [record], handle=handle)
+    from antismash.common import json as as_json
     if std_json.loads(handle.getvalue()) != std_json.loads(text)["records"] or \
-            std_json.loads(std_json.dumps(data, default=lambda o: o.to_json())) != std_json.loads(text)["records"]:
-        raise Violation("results_dump_records", dict(context))
+            std_json.loads(as_json.dumps(data)) != std_json.loads(text)["records"]:
+        found.append(("results_dump_records", dict(context)))
     # schema gate: compatible versions load the same record, others are refused
     schema = spec.get("schema", "same")
     if schema != "same":
@@ -336,17 +347,24 @@ def check_results(spec: dict) -> dict:
             other = AntismashResults.from_file(io.StringIO(std_json.dumps(raw)))
         except ValueError:
             if compatible:
-                raise Violation("results_schema_refused", dict(context, schema=schema))
+                found.append(("results_schema_refused", dict(context, schema=schema)))
             classes.append("schema_refused")
         except Exception as err:  # pylint: disable=broad-except
-            raise Violation("results_schema_crash", dict(context, schema=schema, exception=type(err).__name__,
-                                                         message=str(err)[:200]))
+            found.append(("results_schema_crash", dict(context, schema=schema, exception=type(err).__name__,
+                                                       message=str(err)[:200])))
         else:
             if not compatible:
-                raise Violation("results_schema_accepted", dict(context, schema=schema))
+                found.append(("results_schema_accepted", dict(context, schema=schema)))
             classes.append("schema_compatible")
             if rec.canonical_dump(other.records[0]) != second:
-                raise Violation("results_schema_changed_record", dict(context, schema=schema))
+                found.append(("results_schema_changed_record", dict(context, schema=schema)))
+    with code_under_test("results_rewrite_total"):
+        handle = io.StringIO()
+        AntismashResults("input.gbk", [reloaded], [{}], "7.1.0", taxon=built.taxon).write_to_file(handle)
+    if handle.getvalue() != text and not found:
+        found.append(("results_fixed_point", dict(context, diff=rec.diff_dumps(
+            std_json.loads(text), std_json.loads(handle.getvalue()), limit=60))))
+    _raise_first("results", spec, found)
     return _result(spec, classes)
 
 
@@ -513,7 +531,7 @@ def results_specs():
 
 
 def run(ctx) -> None:
-    shards = ctx.pick(4, 16)
+    shards = ctx.pick(8, 16)
     ctx.hyp("genbank", rec.record_specs(), max_examples=ctx.pick(700, 24000), shards=shards)
     ctx.hyp("json", rec.record_specs(), max_examples=ctx.pick(500, 16000), shards=shards)
     ctx.hyp("results", results_specs(), max_examples=ctx.pick(300, 8000), shards=shards)
